@@ -44,8 +44,9 @@ PIECES = ['C', 'N', 'O', 'c', 'n', 'o', 's', 'F', 'Cl', 'Br', 'B', 'P', 'S', 'I'
 def run_one(s, strict, attribute):
     import selfies as sf
     t0 = time.time()
+    from harness import watchdog
     try:
-        r = sf.encoder(s, strict=strict, attribute=attribute)
+        r = watchdog.call(lambda: sf.encoder(s, strict=strict, attribute=attribute), 20)
         res = ('ok',)
         if attribute and not (isinstance(r, tuple) and len(r) == 2 and isinstance(r[0], str)):
             res = ('bad-result', repr(r)[:100])
@@ -53,6 +54,9 @@ def run_one(s, strict, attribute):
             res = ('bad-result', repr(r)[:100])
     except sf.EncoderError:
         res = ('EncoderError',)
+    except watchdog.Hang:
+        watchdog.note_hang()
+        return ('slow', 'no result after 20 s')
     except BaseException as e:
         res = ('escaped', type(e).__name__, str(e)[:120])
     if time.time() - t0 > 60:
@@ -79,7 +83,10 @@ def features(s, r):
 def _work(job):
     n, bad, nt = 0, [], set()
     cnt = {}
+    from harness import watchdog
     for s in job:
+        if watchdog.hang_seen():
+            break       # a call of this run did not return: reported; further hanging inputs would only cost time
         for strict in (True, False):
             for attr in (False, True):
                 n += 1
@@ -135,6 +142,8 @@ def floor(ctx):
     import selfies as sf
     from harness.par import pmap, chunks
     sf.set_semantic_constraints('default')
+    from harness import watchdog
+    watchdog.reset()
     strings = domain(ctx.tier, ctx.seed)
     strings = strings[-10:] + strings[:-10]
     res = pmap(_work, [[x] for x in strings[:10]] + chunks(strings[10:], 48))
